@@ -1,12 +1,16 @@
 (* C08 — decoding is strict on required/type errors (proved for every schema),
    accepts every valid document (proved for every well-formed schema:
-   C08_valid_accepted) and is lossless (proved for the documents the encoder
-   produces: C06_roundtrip; that an ARBITRARY valid document re-encodes to an
-   equivalent value is checked by the correspondence run, not proved — partial). *)
+   C08_valid_accepted), and what it decodes a valid document to re-encodes to a
+   valid document that decodes to the same value again (C08_reencode_stable:
+   nothing the generated type holds is lost or altered by a decode / encode
+   cycle).  That the re-encoding is, member by member, the kept part of the
+   ORIGINAL document (numbers re-spelt, undeclared keys dropped where the
+   schema has no additionalProperties) is checked by the correspondence run,
+   not proved — partial. *)
 From Coq Require Import List ZArith.
 Import ListNotations.
 From Goag Require Import Base.Str Model.Params Model.Json Spec.JsonSpec
-     Proofs.JsonEncProofs Proofs.JsonRtProofs Proofs.JsonStrictProofs Proofs.JsonCompleteProofs Model.OneOf Proofs.OneOfProofs.
+     Proofs.JsonEncProofs Proofs.JsonRtProofs Proofs.JsonStrictProofs Proofs.JsonCompleteProofs Proofs.JsonStableProofs Model.OneOf Proofs.OneOfProofs.
 
 (* a document that lacks a required property is rejected *)
 Theorem C08_missing_required : forall parse_num parse_time ms addl members k sf v,
@@ -68,3 +72,25 @@ Theorem C08_valid_accepted : forall parse_num parse_time s j,
   exists v, dec parse_num parse_time s j = Ok v.
 Proof. exact valid_accepted. Qed.
 Print Assumptions C08_valid_accepted.
+
+(* the value a valid document decodes to is in the domain the round trip is
+   proved for (integers in range, no property twice, allOf members intact,
+   additional properties kept under their own, distinct keys) ... *)
+Theorem C08_decoded_in_domain : forall parse_num parse_time s j v,
+  wf_sch s -> dom_sch s -> validates parse_num parse_time s j = true ->
+  dec parse_num parse_time s j = Ok v -> rt_ok s v.
+Proof. exact decoded_in_domain. Qed.
+Print Assumptions C08_decoded_in_domain.
+
+(* ... so it re-encodes, to a document that is valid again and decodes to the
+   same value *)
+Theorem C08_reencode_stable : forall fmt_float fmt_time parse_num parse_time,
+  (forall b r, parse_num b (fmt_float b r) = Some r) ->
+  (forall r, parse_time (fmt_time r) = Some r) ->
+  forall s j, wf_sch s -> dom_sch s -> validates parse_num parse_time s j = true ->
+  exists v j', dec parse_num parse_time s j = Ok v /\
+               enc fmt_float fmt_time s v = Ok j' /\
+               validates parse_num parse_time s j' = true /\
+               dec parse_num parse_time s j' = Ok v.
+Proof. exact reencode_stable. Qed.
+Print Assumptions C08_reencode_stable.
